@@ -85,6 +85,13 @@ func btCall(c *ast.CallExpr) string {
 			}
 		case "atomic":
 			return "atomic." + name
+		case "ro":
+			// plugins: a hot construct of the core created per operator value / per application is shared by every
+			// subscription (and every pipeline) built from it
+			if strings.HasPrefix(name, "Share") || strings.HasPrefix(name, "NewConnectable") || name == "Connectable" ||
+				(strings.HasPrefix(name, "New") && strings.HasSuffix(name, "Subject")) {
+				return "ro." + name
+			}
 		}
 	}
 	if id, ok := fn.(*ast.Ident); ok {
@@ -108,6 +115,11 @@ func btCall(c *ast.CallExpr) string {
 
 func extractBuildTime(repo, out string) {
 	files, _ := filepath.Glob(filepath.Join(repo, "operator_*.go"))
+	// the plugins' operators (compositions of core operators, in packages of their own)
+	for _, pat := range []string{"plugins/*/operator*.go", "plugins/*/*/operator*.go", "ee/plugins/*/operator*.go"} {
+		more, _ := filepath.Glob(filepath.Join(repo, pat))
+		files = append(files, more...)
+	}
 	sort.Strings(files)
 	var rows []BuildRow
 	for _, path := range files {
@@ -118,11 +130,25 @@ func extractBuildTime(repo, out string) {
 		if err != nil {
 			continue
 		}
-		rel := filepath.Base(path)
+		rel, rerr := filepath.Rel(repo, path)
+		if rerr != nil {
+			rel = filepath.Base(path)
+		}
 		for _, d := range file.Decls {
 			fd, ok := d.(*ast.FuncDecl)
 			if !ok || fd.Body == nil {
 				continue
+			}
+			if strings.Contains(rel, "/") {
+				// a plugin file: only operator constructors (functions that return the operator, a function value); helpers that
+				// run per item are not construction-time code
+				isCtor := fd.Type.Results != nil && len(fd.Type.Results.List) == 1
+				if isCtor {
+					_, isCtor = fd.Type.Results.List[0].Type.(*ast.FuncType)
+				}
+				if !isCtor {
+					continue
+				}
 			}
 			// a top-level function that itself takes `destination` runs per subscription (helper of a subscribe function)
 			perSub := false
@@ -168,7 +194,9 @@ func extractBuildTime(repo, out string) {
 						}
 						return false
 					case *ast.CallExpr:
-						if w := btCall(v); w != "" {
+						if w := btCall(v); w != "" && !(strings.Contains(rel, "/") && (strings.HasPrefix(w, "xrand.") || strings.HasPrefix(w, "rand."))) {
+							// (the random-string helpers of plugins/strings and plugins/bytes return per-item functions: their
+							// reads of the random source happen per item)
 							rows = append(rows, BuildRow{fd.Name.Name, rel, w, scope, line(v.Pos())})
 						}
 					case *ast.CompositeLit:
